@@ -15,6 +15,12 @@ class Hostile(concretise.Theme):
     fieldkeys = sorted(["f\n1", "_field_y", "f_ 3"])
 
 
+class BigInt(concretise.Theme):
+    """Integers that a float cannot represent exactly, next to one another (plain strings and instants)."""
+    name = "bigint"
+    nums = [-(2 ** 53) - 1, 2 ** 53 + 1, 2 ** 53 + 3, 2 ** 53 + 5, 10 ** 18 + 1, 10 ** 18 + 3] + [10 ** 18 + 5 + 2 * i for i in range(300)]
+
+
 class Latin(concretise.Theme):
     """Strings encodable in latin-1 (for the encoding matrix of C04)."""
     name = "latin"
@@ -147,7 +153,7 @@ def get(name):
         if name.startswith("random:"):
             t = _random_theme(int(name.split(":")[1]))
         else:
-            t = {"plain": concretise.Theme, "csv-hostile": Hostile, "latin": Latin, "time-edge": TimeEdge, "time-far": TimeFar}[name]()
+            t = {"plain": concretise.Theme, "bigint": BigInt, "csv-hostile": Hostile, "latin": Latin, "time-edge": TimeEdge, "time-far": TimeFar}[name]()
         t.check()
         _ALL[name] = t
     return _ALL[name]
